@@ -11,7 +11,7 @@
    of a complex variable, FFT and complex linalg numerically). *)
 From Coq Require Import Ring.
 From Coq Require Import List.
-From AG Require Import Complex ComplexRing VSpace VSpaceProof Bilinear.
+From AG Require Import Complex ComplexRing VSpace VSpaceProof Bilinear Realified.
 
 Theorem C09_holomorphic :
   forall (K : Type) (k0 k1 : K) (kadd kmul ksub : K -> K -> K) (kopp : K -> K),
@@ -74,3 +74,19 @@ Proof.
            (ComplexRing.C_ring K k0 k1 kadd kmul ksub kopp R) na nb no S A B g).
 Qed.
 Print Assumptions C09_complex_bilinear_rules_are_adjoints.
+
+(* R-linear primitives on complex arrays in realified form (fft / ifft / rfft / irfft families, fftshift, real, imag, conj,
+   contractions with complex constants, structural primitives on complex data): for every list of structure constants the
+   rule "conjugate the cotangent, apply the transposed map, conjugate the result" - autograd's convention - satisfies
+   <conj g, J v> = <conj (vjp g), v> and lands in the argument's space *)
+Theorem C09_realified_convention_pairing :
+  forall (K : Type) (k0 k1 : K) (kadd kmul ksub : K -> K -> K) (kopp : K -> K),
+    ring_theory k0 k1 kadd kmul ksub kopp eq ->
+    forall cin cout na no S g v,
+      List.Forall (Bilinear.in_bounds K na 1 no) S -> length v = na -> length g = no ->
+      VSpaceProof.dot K k0 kadd kmul (Realified.cj K kopp cout g) (Realified.lin K k0 k1 kadd kmul no S v)
+      = VSpaceProof.dot K k0 kadd kmul (Realified.cj K kopp cin (Realified.cvjp K k0 k1 kadd kmul kopp cin cout na S g)) v
+      /\ length (Realified.cvjp K k0 k1 kadd kmul kopp cin cout na S g) = na
+      /\ length (Realified.lin K k0 k1 kadd kmul no S v) = no.
+Proof. exact Realified.convention_pairing. Qed.
+Print Assumptions C09_realified_convention_pairing.
